@@ -1,3 +1,8 @@
 import Anysystem.Props.C16
+import Anysystem.Proofs.StagedThms
 #print axioms Anysystem.C16_collected_exact
 #print axioms Anysystem.C16_status_counts_exact
+#print axioms Anysystem.runFromStates_restores
+#print axioms Anysystem.runImpl_is_search
+#print axioms Anysystem.search_trace_prefix
+#print axioms Anysystem.runFromStates_disabled_concat
